@@ -174,3 +174,62 @@ def build(enc):
 def render_rel(tree, pos):
     """canonical relative spelling: a/b[0][1]/c ('' for the root)"""
     return render(None, tree, pos, "rel")
+
+
+def small_trees(max_nodes, keys=("a", "b"), leaves=("v", 0, None)):
+    """all dict-rooted trees with at most `max_nodes` nodes below the root (exhaustive small scope)"""
+    from functools import lru_cache
+
+    @lru_cache(None)
+    def vals(n):
+        """values using exactly n nodes (the value itself counts 1)"""
+        if n <= 0:
+            return ()
+        out = []
+        if n == 1:
+            out += [("s", l) for l in leaves] + [("d", ()), ("l", ())]
+            return tuple(out)
+        # dict with children using n-1 nodes in total, keys in fixed order subsets
+        for ks in key_subsets:
+            if not ks:
+                continue
+            for parts in compositions(n - 1, len(ks)):
+                for combo in product_vals(parts):
+                    out.append(("d", tuple(zip(ks, combo))))
+        for m in range(1, n):
+            for parts in compositions(n - 1, m):
+                for combo in product_vals(parts):
+                    out.append(("l", combo))
+        return tuple(out)
+
+    def product_vals(parts):
+        import itertools
+
+        return itertools.product(*[vals(p) for p in parts])
+
+    def compositions(total, k):
+        if k == 1:
+            if total >= 1:
+                yield (total,)
+            return
+        for first in range(1, total - k + 2):
+            for rest in compositions(total - first, k - 1):
+                yield (first,) + rest
+
+    import itertools
+
+    key_subsets = [ks for r in range(len(keys) + 1) for ks in itertools.combinations(keys, r)]
+
+    def build(t):
+        if t[0] == "s":
+            return t[1]
+        if t[0] == "d":
+            return {k: build(v) for k, v in t[1]}
+        return [build(v) for v in t[1]]
+
+    seen = []
+    for n in range(1, max_nodes + 2):
+        for t in vals(n):
+            if t[0] == "d":
+                seen.append(build(t))
+    return seen
